@@ -2,6 +2,28 @@
 """Regenerates MANIFEST.json from the check modules present (kept valid at all times)."""
 import importlib, json, os, sys
 sys.path.insert(0, os.path.dirname(os.path.abspath(__file__)))
+LEVEL_TEXT = {
+ "C01": "Sampled search (thousands of generated schemas x basis/one-hot/random values per run) against an independent bit-list reference encoder: finds layout errors common to all languages or confined to feature combinations nobody wrote down; no claim of absence. The property quantifies over all schemas x values, which only generated search with a reference model can sample broadly.",
+ "C02": "Sampled round trips (encode, decode of own and of reference bytes into a fresh object, leaf-wise compare, re-encode) over generated schemas incl. every enum member at its offset and signed extremes; recorded finding D4b attributed by exact predicate, everything else strict.",
+ "C03": "Sampled schemas x values x {gcc -O0..-O3, clang -O2} x {separate, single TU}: generated C executed in a fenced driver process and compared with the reference encoder and the Python encoder, both directions.",
+ "C04": "Sampled traditional schemas; for each, every bit of every leaf (one-hot basis) plus extremes through five C builds (standard, -O both, -O both+BP_BIG_ENDIAN, -O little, -O big) and the interpreted Go -O code, all against the reference.",
+ "C05": "Model-based generation of schema-version histories (rules append_field / grow_array at any depth) with a projection oracle; Python always, C and interpreted Go on a sample.",
+ "C06": "Part (b) is a COMPLETE enumeration (width x offset x basis values x noise, base types, standard ints, arrays incl. batch widths) of the runtime built for big-endian with harness-laid big-endian storage; part (a) samples schemas for the -O big-endian branch. Limits of x86 simulation stated in level_note.",
+ "C07": "Sampled schemas x arbitrary storage patterns in guard-page and ASan/UBSan builds, both buffer placements, standard and -O; containment as a metamorphic relation against the reference; size constants in all three languages.",
+ "C08": "Complete enumeration of both sides of every numeric limit at four positions plus sampled single-violation mutants (12 rule families, ~130 variants) and valid-by-construction schemas, judged by an independent rule checker that is itself cross-checked each case.",
+ "C09": "Sampled token mutations and token soups plus coverage-guided fuzzing (atheris, 8-16 processes) with exception bucketing; cannot show termination for all inputs, only times them.",
+ "C10": "Sampled feature compositions pushed through gcc, g++ (layout comparison), CPython (static name resolution + import + instantiate) and a Go static checker; ten recorded findings attributed by exact shape predicates with one probe each, hazard-free units strict.",
+ "C11": "Sampled shadowing patterns judged by an independent resolver; observed in the parsed schema, the generated size and the encoded bytes.",
+ "C12": "Metamorphic: generated sequences of wire-preserving rewrites; bytes before == after == reference (Python always, C on a sample).",
+ "C13": "Sampled expression trees (own evaluator, cross-checked by Python's parser) and strings over the lexer's alphabet; emission read back by importing Python, compiling C, lexing/type-checking Go.",
+ "C14": "COMPLETE enumeration of {bool, byte, uint1..64, int1..64} x offset 0..7 x {scalar, array, alias, array of alias} x basis values through Python, C standard / -O (both branches), Go standard / -O (interpreted) and direct C runtime calls (LE and BE builds).",
+ "C15": "Sampled style-guide-named schemas: expected names computed from the documented scheme and observed in object symbols, a names program, Python attributes, parsed Go declarations, file names; prefix option as a metamorphic relation.",
+ "C16": "Sampled schemas x in-range values: Python to_json/to_dict and C Json output parsed and compared with the value tree from the model and with each other.",
+ "C17": "Relations between invocations on sampled schemas with planted extensible markers, all -F subset kinds, languages, --endian; function texts compared between filtered and unfiltered output.",
+ "C18": "Fresh-process invocations under varied hash seed / cwd / path form / outdir / -q, and generated in-process histories over name-sharing twin schemas against a fresh-process oracle (sha256 of every output file).",
+ "C19": "Generated Go executed by a Go-subset interpreter: struct shape, size constants, processor tree (vs Python's and the model's), accessors by encode/decode against the reference; runtime helpers on their COMPLETE argument domains.",
+ "C20": "Sampled conforming / perturbed schemas and single-violation mutants at shifted lines; warnings, citations, every definition's and reference's line/column against the renderer's source map; -q advisory relation; check-only exit status.",
+}
 props = [json.loads(l) for l in open('properties.jsonl')]
 READY = set(open('READY_CHECKS').read().split())
 checks, na = [], []
@@ -21,7 +43,7 @@ for p in props:
         "evidence_file": f"evidence/{pid}.json",
         "replay_cmd_template": f"./run {pid} --replay {{path}}",
         "engine": "bpverif",
-        "level_claimed": {"category": getattr(mod, 'LEVEL', 'exploration'), "text": getattr(mod, 'LEVEL_TEXT', mod.RULE)[:1500], "design_ref": f"DESIGN.md section 7, {pid}"},
+        "level_claimed": {"category": getattr(mod, 'LEVEL', 'exploration'), "text": (LEVEL_TEXT.get(pid, "") + " How cases are generated and counted: " + mod.RULE)[:2500], "design_ref": f"DESIGN.md section 7, {pid}"},
         "level_note": "; ".join(getattr(mod, 'ASSUMPTIONS', []))[:1500],
         "technique": getattr(mod, 'TECHNIQUE', "property-based testing (Hypothesis generators) against an independent reference model"),
     })
